@@ -21,6 +21,7 @@ import threading
 from vt import c11lib
 from vt.core import HarnessError
 from vt.world import wire
+from vt.vthreading import RT
 
 import cassandra.io.asyncioreactor as ar
 
@@ -47,11 +48,44 @@ def _answers(version, written):
         if op == wire.OP_OPTIONS:
             out.append(wire.frame(version, stream, wire.OP_SUPPORTED,
                                   wire.supported({'CQL_VERSION': ['3.4.5'], 'COMPRESSION': []})))
-        elif op == wire.OP_STARTUP:
+        elif op in (wire.OP_STARTUP, wire.OP_REGISTER):
             out.append(wire.frame(version, stream, wire.OP_READY, b''))
         else:
             raise HarnessError('unexpected request opcode %#x during the handshake' % op)
     return out, written
+
+
+class _Clock(object):
+    now = 0.0
+
+
+class _WaitingApplication(object):
+    """Stand-in for RT.world while application code blocks in wait_for_response() on a reactor connection: the
+    loop thread runs meanwhile, and the server answers what the driver wrote (REGISTER -> READY)."""
+    clock = _Clock()
+
+    def __init__(self, link):
+        self.link = link
+
+    def __enter__(self):
+        self._prev = RT.world
+        RT.world = self
+        return self
+
+    def __exit__(self, *exc):
+        RT.world = self._prev
+        return False
+
+    def pump(self, pred=None):
+        link = self.link
+        for _ in range(4):
+            link.settle()
+            if pred is not None and pred():
+                return
+            frames, link._rest = _answers(link.version, link._rest + link.written())
+            if not frames:
+                return
+            link.serve(frames)
 
 
 # ------------------------------------------------------------------------------ asyncio
@@ -146,20 +180,29 @@ class AsyncioLink(object):
         return new
 
     def _handshake(self):
-        rest = b''
+        self._rest = b''
         for _ in range(4):
             if self.conn.connected_event.is_set():
                 break
-            frames, rest = _answers(self.version, rest + self.written())
+            frames, self._rest = _answers(self.version, self._rest + self.written())
             if not frames:
                 break
-            # the whole answer is waiting in the socket: recv(in_buffer_size) returns it in full reads
-            self.loop.arrive([b''.join(frames)])
-            self.settle()
+            self.serve(frames)
         c = self.conn
         if not c.connected_event.is_set() or c.last_error or c.is_closed or c.is_defunct:
             raise SetupFailed('asyncio handshake with in_buffer_size=%d (reads %r) did not complete: last_error=%r%s'
                               % (self.B, self.loop.reads, c.last_error, self.trouble()))
+        self.reset_counters()
+
+    def serve(self, frames):
+        # the whole answer is waiting in the socket: recv(in_buffer_size) returns it in full reads
+        self.loop.arrive([b''.join(frames)])
+        self.settle()
+
+    def application(self):
+        return _WaitingApplication(self)
+
+    def reset_counters(self):
         del self.loop.reads[:]
         del self.loop.asked[:]
         self.loop.returned = 0
@@ -270,20 +313,30 @@ class TwistedLink(object):
         return new
 
     def _handshake(self):
-        rest = b''
+        self._rest = b''
         for _ in range(4):
             if self.conn.connected_event.is_set():
                 break
-            frames, rest = _answers(self.version, rest + self.written())
+            frames, self._rest = _answers(self.version, self._rest + self.written())
             if not frames:
                 break
-            for f in frames:
-                self.proto.dataReceived(f)
-            self.settle()
+            self.serve(frames)
         c = self.conn
         if not c.connected_event.is_set() or c.last_error or c.is_closed or c.is_defunct:
             raise SetupFailed('twisted handshake (one whole frame per dataReceived) did not complete: last_error=%r'
                               % (c.last_error,))
+
+    def serve(self, frames):
+        for f in frames:
+            self.proto.dataReceived(f)
+        self.settle()
+
+    def application(self):
+        return _WaitingApplication(self)
+
+    def reset_counters(self):
+        del self.reads[:]
+        self.returned = 0
 
     def read_each(self, chunk):
         self.returned += len(chunk)
@@ -305,6 +358,35 @@ class TwistedLink(object):
 
 
 LINKS = {'asyncio': AsyncioLink, 'twisted': TwistedLink}
+
+
+class cpu_guard(object):
+    """The CPU-time guard of VConnection.feed around a whole scripted execution: a read path that stops
+    consuming its buffer raises vworld.Livelock (inside an asyncio task it ends up as that task's exception;
+    vworld._FEED_STATE['livelocks'] counts it either way)."""
+    def __enter__(self):
+        import signal
+        from vt.world import vworld
+        self._signal = signal
+        self._on = False
+        try:
+            self._old = signal.signal(signal.SIGVTALRM, vworld._on_feed_alarm)
+        except ValueError:                  # not the main thread: no guard available
+            return self
+        self._on = True
+        self._prev = signal.setitimer(signal.ITIMER_VIRTUAL, vworld._feed_budget())
+        return self
+
+    def __exit__(self, *exc):
+        if not self._on:
+            return False
+        signal = self._signal
+        if self._prev[0]:
+            signal.setitimer(signal.ITIMER_VIRTUAL, *self._prev)
+        else:
+            signal.setitimer(signal.ITIMER_VIRTUAL, 0)
+        signal.signal(signal.SIGVTALRM, self._old)
+        return False
 
 
 # ------------------------------------------------------------------------------ read scripts
